@@ -10,6 +10,11 @@ def run(ctx):
     findings = load_findings('C07')
     translate(ctx, ['consts'])
     lean_props(ctx)
+    lru_tie(ctx, findings)
+
+def lru_tie(ctx, findings, relevant=None):
+    """the LruDiskCache correspondence and monitors; also run by C15 (a lookup never changes the entry files), where only the
+    failures that are about lookups count"""
     if not cargo_harness(ctx, ['h_lru']): return
     n = 1500 if ctx.quick() else 40000
     trace, summary = os.path.join(ctx.work, 'trace.txt'), os.path.join(ctx.work, 'summary.json')
@@ -25,7 +30,8 @@ def run(ctx):
     ctx.samples += s['samples']
     ctx.cov.update(cases=s['cases'], corpus_cases=s['corpus_cases'], evictions=s['evictions'], panics=s['panics'],
                    op_histogram=s['op_histogram'], result_histogram=s['result_histogram'])
-    monitor_failures(ctx, s['monitor_failures'], findings, 'h_lru monitor', to_replay)
+    fails = s['monitor_failures'] if relevant is None else [f for f in s['monitor_failures'] if relevant(f)]
+    monitor_failures(ctx, fails, findings, 'h_lru monitor', to_replay)
     ctx.assumptions += ['kernel file timestamps order operations that are more than 10 ms apart (slow-mode recency monitor)',
                         'no other process writes the cache directory (external deletions are explicit harness steps)']
 
